@@ -4,9 +4,11 @@ Require Import ExtrOcamlBasic.
 
 Definition e_person (p : person) : sexp :=
   L [e_list e_str (p_first p); e_list e_str (p_middle p); e_list e_str (p_prelast p);
-     e_list e_str (p_last p); e_list e_str (p_lineage p)].
+     e_list e_str (p_last p); e_list e_str (p_lineage p); e_list e_str (bibtex_first_names p)].
 
-(* 1: Person(string)   2: Person(string, first, middle, prelast, last, lineage)   3: str(Person(string)) *)
+(* 1: Person(string)   2: Person(string, first, middle, prelast, last, lineage)   3: str(Person(string))
+   4: split_tex_string(s)   5: split_tex_string(s, ',')
+   (the person is sent as its five lists + bibtex_first_names) *)
 Definition dispatch (fn : Z) (a : sexp) : sexp :=
   match fn with
   | 1%Z => e_res (e_pair e_person e_bool) (person_of_string (d_str (d_nth a 0)))
@@ -14,6 +16,8 @@ Definition dispatch (fn : Z) (a : sexp) : sexp :=
              (person_init (d_str (d_nth a 0)) (d_str (d_nth a 1)) (d_str (d_nth a 2)) (d_str (d_nth a 3))
                           (d_str (d_nth a 4)) (d_str (d_nth a 5)))
   | 3%Z => e_res e_str (do pr <- person_of_string (d_str (d_nth a 0)); Ok (person_str (fst pr)))
+  | 4%Z => e_res (e_list e_str) (split_tex_space (d_str (d_nth a 0)))
+  | 5%Z => e_res (e_list e_str) (split_tex_comma (d_str (d_nth a 0)))
   | _ => L []
   end.
 
